@@ -3,7 +3,8 @@
 # back as a VIOLATION of its property when the repair is taken out again: the reverse of the fix commit is applied
 # to /repo's working tree, the property's quick check is run, the tree is restored.  One line per entry on stdout:
 #   <finding-id> <property> <commit> caught|MISSED|not-applicable(<why>)
-# (a fix whose reverse no longer applies because a later fix rewrote the same lines is reported as not-applicable).
+# (a fix whose reverse no longer applies because a later fix rewrote the same lines uses the hand-written reverse
+# seeded/REV/<finding-id>.diff if there is one, and is reported as not-applicable otherwise).
 cd "$(dirname "$0")/.." || exit 2
 V=$(pwd)
 sel="$*"
@@ -18,7 +19,13 @@ EOF
 while read id prop commit; do
   cd /repo || exit 2
   git checkout -q HEAD -- . && git reset -q
-  git diff "$commit" "$commit~1" -- src > /tmp/fix_reverts.$$.diff
+  how=""
+  if [ -f "$V/seeded/REV/$id.diff" ]; then
+    # a later repair rewrote the same lines: the reverse was written by hand against the current tree
+    cp "$V/seeded/REV/$id.diff" /tmp/fix_reverts.$$.diff; how=" (reverse written by hand, seeded/REV/$id.diff)"
+  else
+    git diff "$commit" "$commit~1" -- src > /tmp/fix_reverts.$$.diff
+  fi
   if ! git apply /tmp/fix_reverts.$$.diff 2>/dev/null; then
     if ! git apply --3way /tmp/fix_reverts.$$.diff >/dev/null 2>&1; then
       git checkout -q HEAD -- . ; git reset -q
@@ -33,9 +40,9 @@ while read id prop commit; do
   cd "$V"
   out=$(./check "$prop" ${TIER:-quick} 2>&1); r=$?
   nv=$(echo "$out" | grep -c '^VIOLATION')
-  if [ $r -eq 1 ] && [ "$nv" -gt 0 ]; then echo "$id $prop $commit caught ($nv VIOLATION lines)"
+  if [ $r -eq 1 ] && [ "$nv" -gt 0 ]; then echo "$id $prop $commit caught ($nv VIOLATION lines)$how"
   elif [ $r -eq 2 ]; then echo "$id $prop $commit TOOL-ERROR $(echo "$out" | grep -E 'TOOL ERROR' | head -1 | cut -c1-200)"
-  else echo "$id $prop $commit MISSED"; fi
+  else echo "$id $prop $commit MISSED$how"; fi
   cd /repo && git checkout -q HEAD -- . && git reset -q
 done < /tmp/fix_reverts.$$.list
 rm -f /tmp/fix_reverts.$$.list /tmp/fix_reverts.$$.diff
